@@ -20,7 +20,7 @@ func init() {
 		ID:              "C16",
 		HangIsViolation: true,
 		Technique:       "exhaustive enumeration of tag texts (sequences of literal / placeholder segments incl. defaults, nesting, repetition) x configurations (values that themselves contain placeholders, incl. self- and mutually-referential ones) x tag kinds, each a real start; reference evaluator for acyclic cases, termination decided by a Configure.Get-call budget (no clock)",
-		Rule:            "tag = <=2 (thorough <=3) segments over {literal, ${a}, ${b}, ${x} absent, ${x:d}, ${a:d}, ${m:d} empty map, ${l:d} empty list, ${${k}} nested key, ${x:${a}} nested default, ${x:${x:e}}}; configuration a in {absent, v, ${b}, ${a}, p${b}q, ${a}x, 7, empty string, ${c}-${a}, ${c}${b}, ${a${c}}} with c a plain value x b in {absent, w, ${a}, ${b}} x k in {a, b}; observed through a custom tag (substituted text seen by a recording processor), a value tag bound to a string field and a by-name wire tag; non-trivial = tag with >=2 placeholders, nesting, or a configured value containing a placeholder",
+		Rule:            "tag = <=2 (thorough <=3) segments over {literal, ${a}, ${b}, ${x} absent, ${x:d}, ${a:d}, ${m:d} empty map, ${l:d} empty list, ${${k}} nested key, ${x:${a}} nested default, ${x:${x:e}}}; configuration a in {absent, v, ${b}, ${a}, p${b}q, ${a}x, 7, empty string, ${c}-${a}, ${c}${b}, ${a${c}}} with c a plain value x b in {absent, w, ${a}, ${b}} x k in {a, b}; observed through a custom tag (substituted text seen by a recording processor), a value tag bound to a string field and a by-name wire tag; non-trivial = tag with >=2 placeholders, nesting, or a configured value containing a placeholder. Families added in later rounds (look-ups inside Init, retries after an abandoned attempt, user extension points at every Order, several containers, odd names / types / values) are listed per part in this file and described in MANIFEST.json (level_claimed.text) and DESIGN §7",
 		Assumptions: []string{
 			"values with unbalanced ${ fragments are outside the family; number-like defaults belong to C17",
 			"cyclic or self-growing references must end in an error or an empty value within 5000 Configure.Get calls per start",
